@@ -2,7 +2,7 @@
    cd ocaml/extracted && coqc -Q ../../coq ES ../../coq/Extract.v). *)
 From Coq Require Extraction ExtrOcamlBasic ExtrOcamlString.
 From ES Require Import Base Ssb.Param Ssb.Cfg Ssb.Equiv Ssb.Machine Lang.Ast Lang.Spec Lang.SrcSem Lang.Inline Lang.Static Lang.MacroStatic
-  Comp.Passes Comp.Closed Text.Dec SM.Model Script.Model Pyg.Engine Gen.PygTable Text.Str Text.MStr Text.Num Dec.Writer Comp.PopSem Comp.BackEnd Comp.FinalizeSem Comp.ActSem Comp.StripSem.
+  Comp.Passes Comp.Closed Text.Dec SM.Model Script.Model Pyg.Engine Gen.PygTable Text.Str Text.MStr Text.MLex Text.Num Dec.Writer Comp.PopSem Comp.BackEnd Comp.FinalizeSem Comp.ActSem Comp.StripSem.
 Extraction Language OCaml.
 Extraction "extracted.ml"
   equiv_run cfg_of_ssb ssb_entries cfg_of_prog pair_entries silent_cycle observe param_eqb
@@ -12,7 +12,7 @@ Extraction "extracted.ml"
   inline well_scoped program_has unknown_macro too_few_args self_recursive trap
   lex pyg_table table_ok
   print_single read_single single_exact lex_body
-  print_multi read_multi multi_exact
+  print_multi read_multi multi_exact lex_multi occurs3
   read_int read_pos_arg read_fixed is_decimal_token spell_dec spell_radix spell_zero print_pos_arg
   wrun winit
   cfg_of_pops pop_entries backend_ok finalize_ok strip_ok
